@@ -1224,26 +1224,38 @@ theorem google_param_reported_vs_written (hdr : Nat) (es : List Entry) (k : Nat)
 
 /-! ### `obj.__doc__ = "…"` -/
 
-/-- the assignment leaves the line base alone: problems of the assigned text are located from the
-definition's docstring literal, or from the `def` line when there was none -/
-theorem doc_assignment_keeps_old_base (o : Obj) (sec : Sec) (off : Int) :
-    reportAfterDocAssignment o sec off = report o sec off := rfl
+/-- **doc_assignment_line_correct** (full; holds since pydoctor af7dc4e): a problem `off` lines into
+the text assigned by a string literal on line `sl` is reported at `extractLinenum sl v + off`, a
+line of the assigned literal — whatever docstring or line the definition had. -/
+theorem doc_assignment_line_correct (o : Obj) (sec : Sec) (off : Int) (sl : Nat) (v : List Char)
+    (hs : sec = .docstring ∨ sec = .xref) (h0 : 0 < sl) :
+    reportAfterDocAssignment o sl v sec off = .num ((extractLinenum sl v : Nat) + off) := by
+  have hge := extractLinenum_ge sl v
+  have hne : ((extractLinenum sl v : Nat) : Int) ≠ 0 := by omega
+  simp only [reportAfterDocAssignment, Obj.assignDoc]
+  rw [report_docstring _ _ _ hs hne]
 
-/-- Full statement wanted: the reported line is `extractLinenum sl v + off`, the line inside the
-assigned literal (on line `sl`, value `v`).  It holds exactly when the old base happens to equal the
-new literal's first text line — which cannot be, the assignment stands below the definition. -/
-theorem doc_assignment_line_partial (o : Obj) (sec : Sec) (off : Int) (sl : Nat) (v : List Char)
-    (hs : sec = .docstring ∨ sec = .xref) (h0 : pyOr (some o.docstringLineno) o.linenumber ≠ 0) :
-    reportAfterDocAssignment o sec off = .num ((extractLinenum sl v : Nat) + off) ↔
-      pyOr (some o.docstringLineno) o.linenumber = (extractLinenum sl v : Nat) := by
-  simp only [reportAfterDocAssignment, Obj.assignDoc, report, hs, if_true, h0, ne_eq, not_false_eq_true,
-    Line.num.injEq]
+/-- with the layout hypothesis this is the physical line of the block (field classes shown; the
+other classes compose with the `offset_correct_*` theorems in the same way) -/
+theorem doc_assignment_field_line_correct_partial (o : Obj) (sl raw : Nat) (v : List Char) (h0 : 0 < sl)
+    (hl : noOverIndent v = true) (ht : hasText v = true) :
+    reportAfterDocAssignment o sl v .docstring ((raw : Int) - (dropped v : Nat)) = .num ((sl : Int) + raw) := by
+  rw [doc_assignment_line_correct o _ _ sl v (Or.inl rfl) h0, docstring_lineno_correct_partial sl v hl ht]
+  congr 1
+  push_cast
   omega
 
-/-- `def f` with a docstring from line 3; `f.__doc__ = """⏎    New doc.⏎⏎    Text L{zq1}.⏎    """` on
-line 12: `zq1` (physical line 15, offset 2) is reported on line 5. -/
-theorem doc_assignment_counterexample :
+example : reportAfterDocAssignment ⟨3, 1, false⟩ 12 "\n    New doc.\n\n    Text L{zq1}.\n    ".toList .xref 2 = .num 15 := by
+  decide
+
+/-- historical (before af7dc4e): the assignment left the line base alone -/
+theorem doc_assignment_keeps_old_base_old (o : Obj) (sec : Sec) (off : Int) :
+    reportAfterDocAssignmentOld o sec off = report o sec off := rfl
+
+/-- historical witness: `def f` with a docstring from line 3; the literal assigned to `f.__doc__` on
+line 12 has `zq1` on physical line 15 (offset 2): it was reported on line 5. -/
+theorem doc_assignment_old_counterexample :
     let v := "\n    New doc.\n\n    Text L{zq1}.\n    ".toList
-    reportAfterDocAssignment ⟨3, 1, false⟩ .xref 2 = .num 5 ∧ extractLinenum 12 v + 2 = 15 := by decide
+    reportAfterDocAssignmentOld ⟨3, 1, false⟩ .xref 2 = .num 5 ∧ extractLinenum 12 v + 2 = 15 := by decide
 
 end Lineno
